@@ -8,16 +8,18 @@ register / ready / unregister as operations on one object; Federation.tla has th
 Service.Terminate and Server.Terminate ACROSS processes: requests in flight, a connection to the directory that is lost
 before the request or before the reply, activations that are refused, servers that stop while a client resolves.
 
-(a) TLC: MCFederation (the code: Dev_NoCleanup, Dev_RouterFirst, Dev_NoLease ON) keeps what C15 states for the composition:
+(a) TLC: MCFederation (the code: Dev_NoCleanup, Dev_RouterFirst, Dev_NoLease, Dev_StaleKept ON) keeps what C15 states for the composition:
     UniqueNames, IdsIncreasing, VisibleExactly, EventsOnce, LiveVisible.  Renderings that are not the code must break them
     (Dev_Federation_stagingunchecked / idreuse / lookupstaged / removedforstaged / enableerrorignored).  The demands OUTSIDE the
     statement - a listed service is reachable, a staged entry has an owner, an activated object is served or terminated, a
-    terminated service is not listed - hold in MCFederation_ideal (the three deviations OFF), each deviation alone breaks
-    its demand (Dev_Federation_nocleanup / routerfirst / nolease ...), and the code breaks all of them (Obs_Federation_*):
+    terminated service is not listed, a session's pool holds no dead connection - hold in MCFederation_ideal (the four
+    deviations OFF), each deviation alone breaks its demand (Dev_Federation_nocleanup / routerfirst / nolease / stalekept ...),
+    and the code breaks all of them (Obs_Federation_*):
     recorded as observations with the length of the counterexample, no verdict.
 (b) GenFederation exports one behaviour per transition of the state graph (and every command sequence up to a depth); a
     seeded sample is replayed on real servers over unix sockets, with a frame-aware relay in front of the directory
-    (requests held, dropped, replies lost), implementors that park in Activate, the session gates.  After every command:
+    (requests held, dropped, replies lost) and of every service server (a client's connection cut), implementors that park in
+    Activate, the session gates.  After every command:
     outcome, list and look-ups of a fresh session, events of a subscriber, what Proxy(name) + Hello of a fresh session
     reaches, what every server routes, OnTerminate counters, client pools.
 Verdicts only for what the hosting property states (in_scope); everything else is a conformance OBSERVATION.
@@ -157,7 +159,7 @@ def run(ctx, scope="C15"):
     pool = ThreadPoolExecutor(max_workers=8)
     sel = lambda: {"SEL": str(rnd.randrange(10))}
     if thorough:
-        gens = [("GenFederation_thorough.cfg", "T", 9000), ("GenFederation_clients.cfg", "T", 1500), ("GenFederation_seq_thorough.cfg", "S", 1500)]
+        gens = [("GenFederation_thorough.cfg", "T", 7000), ("GenFederation_clients.cfg", "T", 1200), ("GenFederation_seq_thorough.cfg", "S", 1200)]
     else:
         gens = [("GenFederation.cfg", "T", 650), ("GenFederation_clients.cfg", "T", 500), ("GenFederation_seq.cfg", "S", 250)]
     genruns = [(g, pool.submit(ctx.tlc, "GenFederation", g[0], workers=1, count=False, timeout=2400, env=sel())) for g in gens]
@@ -224,7 +226,7 @@ def run(ctx, scope="C15"):
         if d[1] not in r.violated:
             raise Infra("the configuration describing the code is expected to break %s (%s), got %s" % (d[1], d[0], r.violated))
         # a demand outside C15's statement which the code - as modelled, and as replayed above - does not meet
-        ctx.observe("federation/model/" + d[1], "Federation.tla with the code's deviations (Dev_NoCleanup, Dev_RouterFirst, Dev_NoLease): %s; "
+        ctx.observe("federation/model/" + d[1], "Federation.tla with the code's deviations (Dev_NoCleanup, Dev_RouterFirst, Dev_NoLease, Dev_StaleKept): %s; "
                     "counterexample of %s commands; replayed behaviours in which the real servers show it: %s" % (d[2], depth_of(r), info["steps_showing_the_deviations_on_the_real_servers"]),
                     {"config": d[0]})
     if design is not None:
